@@ -23,14 +23,31 @@ theorem advance_fields {s sa : State} {t : Nat} (h : advance s t = some sa) :
         · simp [h1, hk, h2, h3] at h; subst h; simp
       · simp [h1, hk, h2] at h; subst h; simp
 
+/-- `advance` leaves the key bookkeeping alone. -/
+theorem advance_epoch {s sa : State} {t : Nat} (h : advance s t = some sa) :
+    sa.kp = s.kp ∧ sa.nKeys = s.nKeys ∧ sa.keyEp = s.keyEp ∧ sa.requested = s.requested ∧ sa.keyReuse = s.keyReuse := by
+  unfold advance at h
+  by_cases h1 : t < s.now
+  · simp [h1] at h
+  · cases hk : s.keepaliveAt with
+    | none => simp [h1, hk] at h; subst h; simp
+    | some k =>
+      by_cases h2 : k < t
+      · by_cases h3 : s.seqSend < seqLimit
+        · simp [h1, hk, h2, h3] at h
+        · simp [h1, hk, h2, h3] at h; subst h; simp
+      · simp [h1, hk, h2] at h; subst h; simp
+
 /-- `SecureSession.send`: what is written and how the counters move. -/
 theorem send_spec (s : State) (svc : Nat) :
     ((send s svc).1 = .plain → s.initialized = false ∧ svc = sessionRequest) ∧
-    (∀ q, (send s svc).1 = .wrapped q →
-        q = s.seqSend ∧ q < seqLimit ∧ (send s svc).2.seqSend = q + 1 ∧ s.initialized = true) ∧
-    ((∀ q, (send s svc).1 ≠ .wrapped q) → (send s svc).2 = s) ∧
+    (∀ q ek es, (send s svc).1 = .wrapped q ek es →
+        q = s.seqSend ∧ q < seqLimit ∧ (send s svc).2.seqSend = q + 1 ∧ s.initialized = true ∧ (ek, es) = s.keyEp) ∧
+    ((∀ q ek es, (send s svc).1 ≠ .wrapped q ek es) → (send s svc).2 = s) ∧
     (send s svc).2.seqRecv = s.seqRecv ∧ (send s svc).2.initialized = s.initialized ∧
-    (s.initialized = true → seqLimit ≤ s.seqSend → (send s svc).1 = .errIpsec) := by
+    (s.initialized = true → seqLimit ≤ s.seqSend → (send s svc).1 = .errIpsec) ∧
+    ((send s svc).2.kp = s.kp ∧ (send s svc).2.nKeys = s.nKeys ∧ (send s svc).2.keyEp = s.keyEp ∧
+      (send s svc).2.requested = s.requested ∧ (send s svc).2.keyReuse = s.keyReuse) := by
   unfold send
   by_cases h1 : s.initialized = true <;> by_cases h2 : s.seqSend < seqLimit <;>
     by_cases h3 : svc = sessionRequest <;> by_cases h4 : s.isOpen = true <;>
@@ -39,45 +56,58 @@ theorem send_spec (s : State) (svc : Nat) :
 /-- `SecureSession.stop`. -/
 theorem stop_spec (s : State) :
     (stop s).1 ≠ .plain ∧
-    (∀ q, (stop s).1 = .wrapped q →
-        q = s.seqSend ∧ q < seqLimit ∧ (stop s).2.seqSend = q + 1 ∧ s.initialized = true) ∧
-    ((∀ q, (stop s).1 ≠ .wrapped q) → (stop s).2.seqSend = s.seqSend) ∧
-    (stop s).2.seqRecv = s.seqRecv ∧ ((stop s).2.initialized = true → s.initialized = true) := by
+    (∀ q ek es, (stop s).1 = .wrapped q ek es →
+        q = s.seqSend ∧ q < seqLimit ∧ (stop s).2.seqSend = q + 1 ∧ s.initialized = true ∧ (ek, es) = s.keyEp ∧
+        (stop s).2.initialized = false ∧ (stop s).2.requested = false) ∧
+    ((∀ q ek es, (stop s).1 ≠ .wrapped q ek es) → (stop s).2.seqSend = s.seqSend ∧
+        ((stop s).2.initialized = true → (stop s).2 = s) ∧ ((stop s).2.initialized = false → (stop s).2.requested = false)) ∧
+    (stop s).2.seqRecv = s.seqRecv ∧ ((stop s).2.initialized = true → s.initialized = true) ∧
+    ((stop s).2.kp = s.kp ∧ (stop s).2.nKeys = s.nKeys ∧ (stop s).2.keyEp = s.keyEp ∧ (stop s).2.keyReuse = s.keyReuse) := by
+  unfold stop
+  by_cases h1 : s.initialized = true <;> by_cases h2 : s.seqSend < seqLimit <;> by_cases h4 : s.isOpen = true <;>
+    simp [h1, h2, h4]
+
+/-- `stop()` always tears the session down and never raises. -/
+theorem stop_tears_down (s : State) : (stop s).2.initialized = false ∧ (stop s).1 ≠ .errIpsec := by
   unfold stop
   by_cases h1 : s.initialized = true <;> by_cases h2 : s.seqSend < seqLimit <;> by_cases h4 : s.isOpen = true <;>
     simp [h1, h2, h4]
 
 /-- A wrapper written by the session itself. -/
-theorem autoWrite_spec {s s' : State} {t seq svc aux sid : Nat} {ok : Bool}
-    (h : autoWrite s t seq svc aux ok sid = some s') :
+theorem autoWrite_spec {s s' : State} {t seq svc aux sid ek es : Nat} {ok : Bool}
+    (h : autoWrite s t seq svc aux ok sid ek es = some s') :
     ok = true ∧ seq = s.seqSend ∧ seq < seqLimit ∧ s'.seqSend = seq + 1 ∧ s'.seqRecv = s.seqRecv ∧
-    s'.initialized = true ∧
-    ((svc = sessionAuthenticate ∧ s.initialized = false ∧ s.connecting = true ∧ s'.sessionId = sid ∧
-        ∃ rmac, s.resp = some (sid, rmac) ∧ (s.dap = true → rmac = true)) ∨
-     (svc ≠ sessionAuthenticate ∧ s.initialized = true ∧ sid = s.sessionId)) := by
+    s'.initialized = true ∧ (ek, es) = s'.keyEp ∧ s'.kp = s.kp ∧ s'.nKeys = s.nKeys ∧ s'.keyReuse = s.keyReuse ∧
+    ((svc = sessionAuthenticate ∧ s.initialized = false ∧ s.connecting = true ∧ s.requested = true ∧ s'.sessionId = sid ∧
+        ek = s.kp ∧ s'.requested = false ∧
+        ∃ rmac, s.resp = some (sid, rmac, es) ∧ (s.dap = true → rmac = true)) ∨
+     (svc ≠ sessionAuthenticate ∧ s.initialized = true ∧ sid = s.sessionId ∧ s'.keyEp = s.keyEp ∧
+        s'.requested = s.requested)) := by
   unfold autoWrite at h
   by_cases h1 : svc = sessionAuthenticate
   · simp only [h1, ↓reduceIte] at h
     cases hr : s.resp with
     | none => simp [hr] at h
     | some p =>
-      obtain ⟨rsid, rmac⟩ := p
+      obtain ⟨rsid, rmac, res⟩ := p
       simp only [hr] at h
       split at h
       · rename_i hc
-        obtain ⟨c1, c2, c3, c4, c5, c6, c7⟩ := hc
+        obtain ⟨c1, c1', c2, c3, c4, c5, c6, c7, c8⟩ := hc
         simp only [Option.some.injEq] at h
         subst h
-        refine ⟨c4, c5, by omega, by simp [c5], rfl, rfl, Or.inl ⟨h1, c2, c1, c6.symm, rmac, by rw [c6], c3⟩⟩
+        obtain ⟨e1, e2⟩ := Prod.mk.inj c8
+        refine ⟨c4, c5, by omega, by simp [c5], rfl, rfl, c8, rfl, rfl, rfl,
+          Or.inl ⟨h1, c2, c1, c1', c6.symm, e1, rfl, rmac, by rw [c6, e2], c3⟩⟩
       · cases h
   · simp only [h1, ↓reduceIte] at h
     split at h
     · split at h
       · rename_i hc
-        obtain ⟨c1, c2, c3, c4, c5⟩ := hc
+        obtain ⟨c1, c2, c3, c4, c5, c6⟩ := hc
         simp only [Option.some.injEq] at h
         subst h
-        exact ⟨c2, c3, by omega, by simp [c3], rfl, c1, Or.inr ⟨h1, c1, c4⟩⟩
+        exact ⟨c2, c3, by omega, by simp [c3], rfl, c1, c6, rfl, rfl, rfl, Or.inr ⟨h1, c1, c4, rfl, rfl⟩⟩
       · cases h
     · cases h
 
@@ -86,16 +116,19 @@ theorem step_cases {s s' : State} {o : Obs} (h : step? s o = some s') :
     ∃ sa, advance s o.time = some sa ∧
     match o with
     | .conn _ dap => sa.connecting = false ∧
-        s' = { sa with isOpen := true, connecting := true, resp := none, dap := dap, seqSend := 0, seqRecv := -1 }
-    | .rxr _ sid m out => out = (rxResponse sa sid m).1 ∧ s' = (rxResponse sa sid m).2
+        s' = { sa with isOpen := true, connecting := true, resp := none, requested := false, dap := dap, seqSend := 0,
+                       seqRecv := -1, keyReuse := sa.keyReuse || sa.initialized }
+    | .rxr _ sid m es out => out = (rxResponse sa sid m es).1 ∧ s' = (rxResponse sa sid m es).2
     | .rxp _ svc out => svc ≠ sessionResponse ∧ svc ≠ secureWrapper ∧ out = .drop ∧ s' = sa
-    | .rxw _ sid seq m inner out => out = (rxWrapped sa sid seq m inner).1 ∧ s' = (rxWrapped sa sid seq m inner).2
-    | .ap _ svc => sa.initialized = false ∧ sa.connecting = true ∧ sa.isOpen = true ∧ svc = sessionRequest ∧ s' = sa
-    | .aw t seq svc aux ok sid => autoWrite sa t seq svc aux ok sid = some s'
+    | .rxw _ sid seq m inner ek es out => (m = true → (ek, es) = sa.keyEp) ∧
+        out = (rxWrapped sa sid seq m inner).1 ∧ s' = (rxWrapped sa sid seq m inner).2
+    | .ap _ svc kp => sa.initialized = false ∧ sa.connecting = true ∧ sa.isOpen = true ∧ svc = sessionRequest ∧
+        kp = sa.nKeys ∧ s' = { sa with requested := true, kp := kp, nKeys := sa.nKeys + 1 }
+    | .aw t seq svc aux ok sid ek es => autoWrite sa t seq svc aux ok sid ek es = some s'
     | .snd _ svc _ out => out = (send sa svc).1 ∧ s' = (send sa svc).2
     | .stop _ out => out = (stop sa).1 ∧ s' = (stop sa).2
     | .poke _ v => s'.seqSend = v ∧ s'.seqRecv = sa.seqRecv ∧ s'.initialized = sa.initialized
-    | .cres _ _ => s' = { sa with connecting := false, resp := none }
+    | .cres _ _ => s' = { sa with connecting := false, resp := none, requested := false }
     | .st _ i r q => i = sa.initialized ∧ r = sa.seqRecv ∧ q = sa.seqSend ∧ s' = sa := by
   unfold step? at h
   cases hadv : advance s o.time with
@@ -110,9 +143,9 @@ theorem step_cases {s s' : State} {o : Obs} (h : step? s o = some s') :
       · simp [hc] at h
       · simp only [hc, Bool.false_eq_true, ↓reduceIte, Option.some.injEq] at h
         exact ⟨by simpa using hc, h.symm⟩
-    | rxr t sid m out =>
+    | rxr t sid m es out =>
       simp only at h ⊢
-      by_cases hc : out = (rxResponse sa sid m).1
+      by_cases hc : out = (rxResponse sa sid m es).1
       · simp only [hc, ↓reduceIte, Option.some.injEq] at h; exact ⟨hc, h.symm⟩
       · simp [hc] at h
     | rxp t svc out =>
@@ -122,19 +155,21 @@ theorem step_cases {s s' : State} {o : Obs} (h : step? s o = some s') :
         simp only [Option.some.injEq] at h
         exact ⟨hc.1, hc.2.1, hc.2.2, h.symm⟩
       · cases h
-    | rxw t sid seq m inner out =>
-      simp only at h ⊢
-      by_cases hc : out = (rxWrapped sa sid seq m inner).1
-      · simp only [hc, ↓reduceIte, Option.some.injEq] at h; exact ⟨hc, h.symm⟩
-      · simp [hc] at h
-    | ap t svc =>
+    | rxw t sid seq m inner ek es out =>
       simp only at h ⊢
       split at h
       · rename_i hc
         simp only [Option.some.injEq] at h
-        exact ⟨hc.1, hc.2.1, hc.2.2.1, hc.2.2.2, h.symm⟩
+        exact ⟨hc.1, hc.2, h.symm⟩
       · cases h
-    | aw t seq svc aux ok sid => exact h
+    | ap t svc kp =>
+      simp only at h ⊢
+      split at h
+      · rename_i hc
+        simp only [Option.some.injEq] at h
+        exact ⟨hc.1, hc.2.1, hc.2.2.1, hc.2.2.2.1, hc.2.2.2.2, h.symm⟩
+      · cases h
+    | aw t seq svc aux ok sid ek es => exact h
     | snd t svc aux out =>
       simp only at h ⊢
       by_cases hc : out = (send sa svc).1
